@@ -162,6 +162,10 @@ fn main() {
                 Some(f) => f(&unhex(h), loader, reps.parse().unwrap()),
                 None => "badval".into(),
             }),
+            ["fload", i, loader, h] => Some(match reg[i.parse::<usize>().unwrap()].fload {
+                Some(f) => f(&unhex(h), loader),
+                None => "badval".into(),
+            }),
             ["alloc", i, r, val] => Some(match (parse(val), reg[i.parse::<usize>().unwrap()].alloc) {
                 (Some(t), Some(f)) => f(&t, r.parse().unwrap()),
                 _ => "badval".into(),
